@@ -226,6 +226,142 @@ def part_backoff(ctx):
     return p
 
 
+# ------------------------------------------------------------------ C10 wake-ups
+
+def part_notify_seq(ctx):
+    p = Part("notify-registry")
+    d = os.path.join(ctx["work"], "notify")
+    rc, out = harness(["notify-seq", "-seed", str(ctx["seed"]), "-n", "300" if QUICK(ctx) else "3000", "-out", d])
+    if rc != 0:
+        p.violation("harness-failed", out[-1500:], dict(log=out[-3000:]), found_input=False)
+        return p
+    info = json.load(open(os.path.join(d, "notify_seq.json")))
+    p.evaluations = info["histories"]
+    p.nontrivial = info["with_multi_wake"]
+    p.traces = info["histories"]
+    p.samples = info["samples"][:2]
+
+    def bad(f, n, lst):
+        src = open(f).read()
+        for i in re.findall(r"\d+", lst)[:3]:
+            m = re.search(r"\(%s%%nat, chk .*?\)(?=;\n|\]\.)" % i, src, re.S)
+            p.violation("wake-list-not-fully-woken", "PublishAwaiter/Cancel/WakePublishListeners close a different set of channels than the model (history %s)" % i,
+                        dict(kind="notify-seq", history=m.group(0) if m else i, seed=ctx["seed"]))
+    _eval_dir(p, d, "notify_seq.v", ["bad"], bad)
+    return p
+
+
+def part_wake_sched(ctx):
+    p = Part("waiting-pull-schedules")
+    d = os.path.join(ctx["work"], "wake")
+    rc, out = harness(["wake-sched", "-out", d, "-reps", "6" if QUICK(ctx) else "30"], timeout=3000)
+    if rc != 0:
+        p.violation("harness-failed", out[-1500:], dict(log=out[-3000:]), found_input=False)
+        return p
+    info = json.load(open(os.path.join(d, "wake_sched.json")))
+    res = info["results"]
+    p.evaluations = len(res)
+    p.nontrivial = len(set((r["writer"], r["placement"]) for r in res))
+    p.traces = len(res)
+    p.samples = res[:3]
+    p.info = dict(bound_ms=info["bound_ms"], max_latency_ms=max(r["latency_ms"] for r in res) if res else 0)
+    seen = set()
+    for r in res:
+        if not r["ok"]:
+            key = "lost-wakeup:%s" % r["writer"]
+            if key not in seen:
+                seen.add(key)
+                p.violation(key, "a pull waiting on the subscription did not return the message within %d ms of the writer's commit (writer: %s, commit placed %s): %s" %
+                            (info["bound_ms"], r["writer"], r["placement"], r["err"] or "returned nothing"), dict(kind="wake-schedule", result=r))
+    return p
+
+
+# ------------------------------------------------------------------ C09 fault enumeration, C16 boundary requests
+
+def part_fault_enum(ctx):
+    p = Part("fault-enumeration")
+    d = os.path.join(ctx["work"], "faultenum")
+    args = ["fault-enum", "-out", d] + (["-max-k", "6"] if QUICK(ctx) else [])
+    rc, out = harness(args, timeout=3000)
+    if rc != 0:
+        p.violation("harness-failed", "fault enumeration failed: " + out[-1500:], dict(log=out[-3000:]), found_input=False)
+        return p
+    info = json.load(open(os.path.join(d, "faultenum.json")))
+    res = info["results"]
+    p.evaluations = len(res)
+    p.nontrivial = len(set((r["scenario"], r["k"]) for r in res if r["errored"]))
+    p.traces = len(res)
+    p.samples = res[:3]
+    p.info = dict(statements_per_operation=info["statements_per_operation"], exhaustive=info["exhaustive"])
+    seen = set()
+    for r in res:
+        sc = r["scenario"]
+        probs = []
+        if not r["errored"]:
+            probs.append(("fault-not-reported", "no error was reported"))
+        if not r["unchanged"]:
+            if r["only_heartbeat"] and sc.startswith("pull"):
+                probs.append(("pull-heartbeat", "only subscriptions.expires_at (the expiry heartbeat of the pull's first transaction) changed"))
+            else:
+                probs.append(("partial-effect:" + sc, "tables changed although the operation failed: " + r.get("diff", "")))
+        if r["woken"]:
+            probs.append(("wake-without-commit:" + sc, "%d publish waiters were woken by a transaction that did not commit" % r["woken"]))
+        if not r["retry_ok"]:
+            probs.append(("retry-failed:" + sc, "the retry after the fault failed"))
+        for key, what in probs:
+            if key in seen:
+                continue
+            seen.add(key)
+            p.violation(key, "%s with statement %d/%d (%s, %s) failing: %s" % (sc, r["k"], r["of"], r["call"], r["mode"], what),
+                        dict(kind="fault-enum", result=r))
+    # retried histories against the model
+    outs = coq_eval(sorted(glob.glob(os.path.join(d, "cases_*.v"))))
+    labels = info["retry_labels"]
+    for f, (rc, out) in sorted(outs.items()):
+        if rc != 0:
+            p.violation("model-eval-failed", out[-600:], dict(log=out[-2000:]), found_input=False)
+            continue
+        for m in re.finditer(r"r(\d+) =\s*(\[.*?\])\s*:\s*list", out, re.S):
+            if m.group(2).strip() != "[]":
+                hi = int(m.group(1))
+                key = "retry-differs:" + labels[hi].split("@")[0]
+                if key not in seen:
+                    seen.add(key)
+                    p.violation(key, "after a fault and a retry (%s) the state differs from the model's prediction: %s" %
+                                (labels[hi], re.sub(r"\s+", " ", m.group(2))[:300]), dict(kind="fault-retry", label=labels[hi], coq_case=_extract_case(f, hi)))
+    return p
+
+
+def part_c16(ctx):
+    p = Part("boundary-requests")
+    d = os.path.join(ctx["work"], "c16")
+    args = ["c16", "-out", d] + (["-sample", "4"] if QUICK(ctx) else [])
+    rc, out = harness(args, timeout=3000)
+    if rc != 0:
+        p.violation("harness-failed", "the request enumeration failed: " + out[-1500:], dict(log=out[-3000:]), found_input=False)
+        return p
+    info = json.load(open(os.path.join(d, "c16.json")))
+    res = info["results"]
+    p.evaluations = info["requests"]
+    p.nontrivial = sum(1 for r in res if r["outcome"] != "OK")
+    p.traces = info["requests"]
+    p.samples = [r for r in res if r["outcome"] not in ("OK", "InvalidArgument")][:3]
+    p.info = dict(outcomes=info["outcomes"], per_rpc=info["per_rpc"], total_domain=info["total_domain"], exhaustive=info["exhaustive"])
+    seen = set()
+    for r in res:
+        key = None
+        if r["outcome"] == "PANIC":
+            key, what = "server-crash:" + r["rpc"], "the server process terminated"
+        elif r["outcome"] == "HANG":
+            key, what = "server-hang:" + r["rpc"], "no answer within the deadline"
+        elif r.get("changed"):
+            key, what = "error-changed-state:" + r["rpc"], "answered %s but %s" % (r["outcome"], r["changed"])
+        if key and key not in seen:
+            seen.add(key)
+            p.violation(key, "%s{%s}: %s" % (r["rpc"], r["desc"], what), dict(kind="c16-request", request=r))
+    return p
+
+
 # ------------------------------------------------------------------ Bus engine
 
 MM = re.compile(r"\((\d+)%nat,\s*(\[.*?\])\)", re.S)
@@ -350,6 +486,23 @@ def claim_c06(kind, mm):
         ("MDels" in mm or "delivery" in mm or "illegal-choice" in mm or "MResp" in mm)
 
 
+def claim_c14(kind, mm):
+    k = kind.split(":")[0]
+    return kind == "Job:ExpireSubs" or k == "SetDelay" or (k == "Pull" and ("MSubs" in mm or "MResp" in mm)) or \
+        (k == "Publish" and "MDels" in mm) or (k in ("CreateSub", "UpdateSub") and "MSubs" in mm) or kind == "Job:PruneExpiredDeliveries"
+
+
+def claim_c17(kind, mm):
+    return kind.split(":")[0] in ("CreateSub", "GetSub", "UpdateSub", "ListSubs", "CreateTopic", "GetTopic", "UpdateTopic", "ModifyPush", "ListTopics") and \
+        any(t in mm for t in ("MResp", "MSubs", "MTopics"))
+
+
+def claim_c05(kind, mm):
+    k = kind.split(":")[0]
+    return (k == "Publish" and "MDels" in mm) or (k == "Pull" and ("illegal-selection" in mm or "MResp" in mm)) or \
+        (kind in ("Job:PruneCompletedDeliveries", "Job:PruneExpiredDeliveries") and "MDels" in mm)
+
+
 def claim_c03(kind, mm):
     return kind.split(":")[0] in ("Ack", "ModAck", "StreamAckNack")
 
@@ -396,6 +549,54 @@ CHECKS = {
         rule="engine profile delivery with dead-letter policies N in 1..4 and default, topologies from generated topics (no subscriber, several, filtered, ordered, deleted topic, self loop); "
              "non-trivial = deliveries dead-lettered by pull / nack / sweep",
         assumptions=BUS_ASSUME),
+    "C05": dict(
+        props=["C05"],
+        parts=[engine_part("delivery", 32, 600, 45, claim_c05, ["pull_keyed", "publish_batch"])],
+        rule="engine profile delivery: 40% ordered subscriptions, keys k1 k1 k2 k3 and un-keyed messages, single and batched publishes, pulls of size 1..100, acks in any order, nacks, "
+             "lease and retention expiry, dead-lettering, seeks, prunes; owned projection: predecessor links written by Publish, Pull selection/response, link nulling by the delivery prunes; "
+             "non-trivial = keyed messages pulled, batches",
+        assumptions=BUS_ASSUME + ["history theorem under the environment hypotheses of Bus/T_C05.v (quiet, disciplined H1-H6)"]),
+    "C09": dict(
+        props=["C09"],
+        parts=[part_fault_enum],
+        rule="for each of 26 mutating operations in a prepared non-trivial state, the k-th driver call (BEGIN/exec/query/COMMIT) is failed (error or context-cancellation error), "
+             "quick: <= 6 positions per operation incl. first, last, commit; thorough: every k; checks: error reported, five-table dump identical, no publish waiter woken, retry succeeds and matches the model; "
+             "non-trivial = distinct (operation, position) pairs at which the fault fired",
+        trusted=["the database's own atomicity under failure (ROLLBACK restores the snapshot) is assumed; the driver wrapper injects failures before the statement runs"],
+        assumptions=["partial: faults are injected at statement boundaries of the SQL driver, not inside SQLite; PostgreSQL is not exercised",
+                     "known finding pull-heartbeat: Pull commits its expiry heartbeat in an own transaction"]),
+    "C10": dict(
+        props=["C10"],
+        parts=[part_notify_seq, part_wake_sched],
+        rule="(1) random register/cancel/wake sequences on the real registry vs the model (channels closed after every call; waiters on a random subset of subscriptions); "
+             "(2) a real waiting pull (ExecuteClient, MaxWait 30 s) held at its transaction boundaries by the SQL driver gate while each of 8 writer kinds commits "
+             "before it starts / between heartbeat and query / after the query but before it blocks / after it blocked; it must return the message within 2 s; "
+             "non-trivial = distinct (writer, placement) pairs",
+        trusted=["Go channels, the mutex of notify.go, the goroutine scheduler and timers are modelled (atomic sections), not verified"],
+        assumptions=["partial: interleavings inside atomic sections and the PostgreSQL LISTEN/NOTIFY relay are not exhibited; 'promptly' is a 2 s bound with all timers >= 10 s"]),
+    "C14": dict(
+        props=["C14"],
+        parts=[engine_part("delivery", 32, 600, 45, claim_c14, ["job_effective:ExpireSubs", "job_effective:PruneExpiredDeliveries", "pull_empty", "pull_nonempty"])],
+        rule="engine profile delivery: retention 20 s .. 1 h and default, ttl 45 s .. 24 h and default, injected delays 0/5/40 s; the clock jumps to each lease / retention / subscription "
+             "deadline -1.5 s or +1.5 s ('clearly before or clearly after'); steps whose call spans a deadline are skipped and counted; owned projection: expiry sweep, pulls (heartbeat), "
+             "publish (deadlines of new deliveries), SetDelay, expired-delivery prune",
+        assumptions=BUS_ASSUME),
+    "C17": dict(
+        props=["C17", "C17codec"],
+        parts=[engine_part("config", 32, 600, 45, claim_c17, ["publish_ok", "pull_nonempty"]), part_codec],
+        rule="engine profile config: create/get/update/list of subscriptions and topics with generated configurations (durations absent/0/negative/45 s..24 h, retry bounds incl. 0 and negative, "
+             "dead-letter policies, push configs, labels, filters, every mask path incl. unknown/unsupported/repeated, in sequence) + duration codec: Interval.Value/Scan vs model on boundary and random "
+             "int64 durations, PostgreSQL-style strings, Go-format strings, garbage",
+        assumptions=BUS_ASSUME + ["Go-format strings with more fraction digits than Duration.String() produces are outside the exact-float class and not generated",
+                                  "PostgreSQL itself is not exercised (no PostgreSQL offline); the PostgreSQL interval parser's sign/overflow behaviour is stated as refuted lemmas (F12), unreachable on SQLite"]),
+    "C16": dict(
+        props=["C16"],
+        parts=[part_c16, engine_part("general", 16, 300, 45, lambda kind, mm: False, ["publish_ok"])],
+        rule="boundary-domain requests (names valid/wrong kind/empty/unknown/deleted, int32 min,-1,0,1,1000,max, durations absent/negative/zero/huge/invalid, nested messages absent/empty, "
+             "ack ids live/stale/foreign/garbage/unknown/mixed/duplicate, masks known/unknown/repeated/empty, payloads JSON/non-JSON/empty) on every implemented RPC against a child-process server; "
+             "one factor at a time plus all pairs of the numeric/nested CreateSubscription factors; outcome PANIC = process exit; error answers must leave the dump unchanged",
+        trusted=["panics originating in libraries for inputs outside the enumerated domains are not covered"],
+        assumptions=["partial: the handler model covers the validation logic; the enumeration is pairwise, not the full cross product"]),
     "C03": dict(
         props=["C03"],
         parts=[engine_part("delivery", 32, 600, 45, claim_c03, ["ack_effective", "ack_noop", "modack_effective", "nack_rescheduled"])],
